@@ -221,11 +221,12 @@ type style struct {
 	r          *core.Rng
 	attrWsLit  bool // write tab/newline literally inside attribute values (a conforming parser turns them into spaces)
 	noCharRefs bool
+	noCDATA    bool
 }
 
 func (st *style) escText(s string) string {
 	r := st.r
-	if s != "" && !strings.Contains(s, "]]>") && !strings.Contains(s, "\r") && r.Chance(15) {
+	if !st.noCDATA && s != "" && !strings.Contains(s, "]]>") && !strings.Contains(s, "\r") && r.Chance(15) {
 		return "<![CDATA[" + s + "]]>"
 	}
 	var b strings.Builder
